@@ -813,10 +813,11 @@ func (g *GoFakeS3) copyObject(bucket, object string, meta map[string]string, w h
 	if srcObj.VersionID != "" {
 		w.Header().Set("x-amz-copy-source-version-id", string(srcObj.VersionID))
 	}
-	// x-amz-version-id is the version the copy created, not the one it read
-	// (CopyObjectResult does not carry it, so ask for it):
-	if dstObj, err := g.storage.HeadObject(bucket, object); err == nil && dstObj.VersionID != "" {
-		w.Header().Set("x-amz-version-id", string(dstObj.VersionID))
+	// x-amz-version-id is the version the copy created, not the one it read.
+	// The backend says which one that is: whatever is current by now may
+	// already be another request's upload or delete marker.
+	if result.VersionID != "" {
+		w.Header().Set("x-amz-version-id", string(result.VersionID))
 	}
 
 	return g.xmlEncoder(w).Encode(result)
